@@ -45,8 +45,9 @@ def closed_models(run):
         run.closed_model("Orchestration", "Orchestration_Fixed.cfg", workers=8, heap="4g", timeout=1500)
         run.closed_model("Orchestration", "Orchestration_MC2.cfg", workers=12, heap="6g", timeout=3000)
     else:
-        # two commands, quick: no faults (the exhaustive two-command model with one fault and one restart is the thorough tier)
-        cfg = open(os.path.join(run.specdir, "Orchestration_MC2.cfg")).read().replace("MaxFaults = 1", "MaxFaults = 0")
+        # two commands, quick: no fault, no restart (the exhaustive two-command model with one fault and one restart is the thorough tier)
+        cfg = open(os.path.join(run.specdir, "Orchestration_MC2.cfg")).read().replace("MaxFaults = 1", "MaxFaults = 0").replace(
+            "MaxRestarts = 1", "MaxRestarts = 0")
         open(os.path.join(run.specdir, "Orchestration_MC2q.cfg"), "w").write(cfg)
         run.closed_model("Orchestration", "Orchestration_MC2q.cfg", workers=8, heap="4g", timeout=1500)
     rejected = []
